@@ -68,7 +68,8 @@ Definition c05_ok (qk : quirks) (r : reg) (c : c05case) : bool :=
   match c with
   | KPair ua ub rows => forallb (row_ok qk r ua ub) rows
   | KNum a o e n c =>
-      obs_ok eqb (q_eq qk r a o) e && obs_ok eqb (q_ne qk r a o) n && obs_ok cmp4_ok (q_compare r a o) c
+      let x := q_eq qk r a o in      (* [q_ne] is [negb] of this very answer *)
+      obs_ok eqb x e && obs_ok eqb (y ←r x; Ok (negb y)) n && obs_ok cmp4_ok (q_compare r a o) c
   | KBool a b => obs_ok eqb (q_bool r a) b
   | KHashEq a b h =>
       match q_hash qk r a, q_hash qk r b with
